@@ -562,6 +562,16 @@ def run_gae(case, ctx):
                                                            f"theta={float(a[k])} and the mean={float(c[k])}")
                                     if lr == 1 and not close(b, c, sc, False)[0]:
                                         return Failure("oracle", f"{where}: lr=1 but theta' is not the weighted mean")
+                                if okind in ("spy", "ascent"):
+                                    # the clause itself: a gradient-ascent step toward the rank-weighted mean of the
+                                    # solutions selected in THIS tell (weights ln(mu + 1/2) - ln(i), normalised)
+                                    want = [a[k] + Fraction(lr) * (c[k] - a[k]) for k in range(n)]
+                                    if not close(b, want, sc, exact and npar <= 1)[0]:
+                                        return Failure("oracle", f"{where}: theta' = {[float(v) for v in b]} is not "
+                                                       f"theta + lr*(rank-weighted mean of the {npar} selected solutions "
+                                                       f"- theta) = {[float(v) for v in want]} (theta "
+                                                       f"{[float(v) for v in a]}, mean {[float(v) for v in c]}, lr {lr})")
+                                    ctx.count(f"gae:step-toward-mean:parents={min(npar, 3)}{'+' if npar > 3 else ''}")
                                 if okind == "adam" and adam_fresh:
                                     # first step after a reset: every coordinate moves along the ascent gradient of
                                     # f(theta) - l2/2 |theta|^2, i.e. along (mean - theta) - l2 * theta
@@ -918,6 +928,8 @@ def gen_jac(rng, m, n, kind):
         for r in rows[1:]:
             r[0] = "0"
         return rows
+    if kind == "small":   # gradient norms comparable with (non-default) normalisation epsilons
+        return [[f"{rng.randint(-8, 8)}/256" for _ in range(n)] for _ in range(m)]
     if kind == "float":
         return [[repr(rng.gauss(0, 2)) for _ in range(n)] for _ in range(m)]
     return [[dy(rng, 8, 2) for _ in range(n)] for _ in range(m)]
@@ -952,7 +964,7 @@ def gen_gae(rng, stratum):
         batch = rng.choice([1, 2, 3])  # at most one selected parent keeps the exact stratum exact
     case = {"emitter": "gae", "n": n, "mdim": md, "batch": batch, "exact": exact, "norm": norm, "opt": opt,
             "sel": sel, "rule": rule,
-            "eps": rng.choice(["1/1024", "1/100000000"]),
+            "eps": rng.choice(["1/1024", "1/100000000", "1/8"]),
             "x0": [rng.choice(["1", "-1", "1/2", "3", "-5/4", "2"]) for _ in range(n)],
             "seed": rng.randrange(1 << 30), "aseed": rng.randrange(1 << 30)}
     if opt.startswith("adam"):
@@ -964,9 +976,12 @@ def gen_gae(rng, stratum):
     nops = rng.randint(4, 14)
     have = False
 
-    def tell_op():
+    def tell_op(count=None):
         r = rng.random()
-        if stratum == "gae-zero-parents" or r < 0.3:
+        if count is not None:   # exactly `count` solutions inserted
+            status = [rng.choice([1, 2]) if i < count else 0 for i in range(batch)]
+            rng.shuffle(status)
+        elif stratum == "gae-zero-parents" or r < 0.3:
             status = [0] * batch
         elif exact:
             status = [0] * batch
@@ -991,7 +1006,7 @@ def gen_gae(rng, stratum):
             r = 0.0
         if r < 0.22:
             kind = rng.choice(["dyadic", "dyadic", "zero", "rank1", "zerorow"] +
-                              (["float", "float"] if stratum == "gae-rounded" else []))
+                              (["float", "float", "small"] if stratum == "gae-rounded" else []))
             jac = gen_jac(rng, m, n, kind)
             if kind == "float":
                 jac = as_frac_strings([[float(v) for v in r_] for r_ in jac])
@@ -1003,7 +1018,13 @@ def gen_gae(rng, stratum):
         elif r < 0.50:
             ops.append({"op": "ask", "coeffs": [[dy(rng, 8, 2) for _ in range(m)] for _ in range(batch)]})
         elif r < 0.82:
-            ops.append(tell_op())
+            if stratum == "gae-rounded" and have and batch >= 3 and rng.random() < 0.35:
+                # the number of selected solutions goes DOWN between tells (many, then fewer but still >= 2)
+                hi_ = rng.randint(3, batch)
+                ops.append(tell_op(hi_))
+                ops.append(tell_op(rng.randint(2, hi_ - 1)))
+            else:
+                ops.append(tell_op())
         elif r < 0.90:
             ops.append({"op": "ask_dqd"})
         elif r < 0.97:
@@ -1022,7 +1043,7 @@ def gen_gop(rng):
     case = {"emitter": "gop", "n": n, "mdim": md, "batch": batch, "mg": mg, "norm": rng.random() < 0.4,
             "line": rng.random() < 0.3, "exact": True,
             "sigma": rng.choice(["0", "0", "1/4", "1/2", "2"]), "sigma_g": rng.choice(["1/2", "1", "2", "1/8"]),
-            "line_sigma": rng.choice(["0", "1/2"]), "eps": rng.choice(["1/1024", "1/100000000"]),
+            "line_sigma": rng.choice(["0", "1/2"]), "eps": rng.choice(["1/1024", "1/100000000", "1/8", "1/64"]),
             "x0": [rng.choice(["1", "-1", "1/2", "3", "0"]) for _ in range(n)],
             "seed": rng.randrange(1 << 30), "aseed": rng.randrange(1 << 30)}
     if case["sigma"] != "0" or case["line"]:
@@ -1056,7 +1077,7 @@ def gen_gop(rng):
         ops.append({"op": "ask_dqd"})
         if rng.random() < 0.15:
             ops.append({"op": "ask"})
-        kind = rng.choice(["dyadic", "zero", "rank1", "zerorow", "probe", "probe"])
+        kind = rng.choice(["dyadic", "zero", "rank1", "zerorow", "probe", "probe", "small"])
         ops.append({"op": "tell_dqd", "jacs": [gen_jac(rng, m, n, kind) for _ in range(batch)]})
         ops.append({"op": "ask", "probe_obj": kind == "probe"})
         if rng.random() < 0.35:
